@@ -10,6 +10,17 @@ CHECKS = {
              "heap machine by TLC. The complement is derived in TLA+ from IUPAC base sets, not copied from the code.",
              note="Bounded: exhaustive for the listed small scopes, sampled beyond. Trusted: TLC, CommunityModules, the Go projection (public API reads only)."),
 }
+HEAPNOTE = "Bounded: exhaustive for the listed small scopes, sampled beyond. Trusted: TLC, CommunityModules, the Go projection (public API reads only)."
+CHECKS["C01"] = dict(ref="5/C01", text="The container is specified as a heap machine over ONE list of (name, residues) rows; TLC enumerates every "
+    "operation instance (all three duplicate-name policies, boundary arguments) from a set of seed heaps and samples longer histories, which are "
+    "replayed on the real objects; after every call the object is read back through iteration, by index and by name (rotating accessor families) and "
+    "TLC validates state, error class, cached length, rectangularity and view agreement against the specification, re-synchronising after a mismatch.",
+    note=HEAPNOTE)
+CHECKS["C04"] = dict(ref="5/C04", text="Site extraction / coordinate operations are TLA+ functions with explicit error conditions; TLC enumerates every "
+    "integer argument in -1..L+1, every small site list, every reference row and a family of AddRange partitions (modulo, blocks, invalid) on seed "
+    "alignments with leading/internal/trailing gaps, the histories are replayed on the real code and validated by TLC; larger random alignments are "
+    "driven from Go and validated the same way. Re-assembly identities are checked on the specification by TLC (MC_Sites).",
+    note=HEAPNOTE)
 NA = []
 def main():
     props = [json.loads(l)["id"] for l in open(os.path.join(V, "properties.jsonl"))]
